@@ -42,7 +42,7 @@ func usable(u *PkgUnit) bool {
 }
 
 func stdRunSpec(c *Ctx, prefix string) RunSpec {
-	return RunSpec{Dir: c.Mod, Patterns: []string{"./pkgs/..."}, Prefix: prefix,
+	return RunSpec{Dir: c.Mod, Patterns: []string{"./pkgs/..."}, Prefix: prefix, TargetPrefixes: []string{"github.com/vkd/goag/tests/", "github.com/vkd/goag/examples/"},
 		ReplayPkgDir: func(h string) string {
 			// vscratch/pkgs/<name>.VerifX
 			i := strings.Index(h, "pkgs/")
